@@ -26,7 +26,7 @@ rm -rf /verif/seeded/$NAME/*; cp -r SEED/* /verif/seeded/$NAME/
 RUNWT=/tmp/seedrun-$NAME
 git -C /repo worktree remove --force $RUNWT 2>/dev/null
 git -C /repo worktree add -q --detach $RUNWT HEAD || exit 2
-trap 'git -C /repo worktree remove --force '$RUNWT' 2>/dev/null; rm -rf /verif/harness/.build-*' EXIT
+trap 'git -C /repo worktree remove --force '$RUNWT' 2>/dev/null; rm -rf /verif/harness/.build-$(echo '$RUNWT' | md5sum | cut -c1-8)' EXIT
 cd $RUNWT; git apply /verif/seeded/$NAME/patch.diff || { echo "patch does not apply to current HEAD"; exit 2; }
 RES=""
 for ID in "$@"; do
